@@ -48,7 +48,7 @@ impl Prop for C10 {
         "C10"
     }
     fn rule(&self) -> String {
-        "graphs of all 8 kinds, n in 0..=12, sparse random edges plus shapes stressed towards many small components, long cycles, nested strongly connected components (cycle of cycles), DAGs, isolated nodes, self-loops and parallel edges; shuffled names. Oracle: boolean transitive closure of the edge list (Floyd-Warshall); connected/weak components = classes of mutual reachability ignoring direction, strong = mutual reachability; results compared as sets of sets (disjoint, non-empty, covering). node_connected_component and breadth_first_search from every node, bfs_equal_size_partitions for k = 1 + k%(n+2), WrongMethod on the other kind. Every call is repeated 3 times in-process (hash iteration order differs per call). Exhaustive block: all directed graphs on <= 3 nodes and undirected on <= 4. Non-trivial = >= 2 components with one of size >= 3 (for directed graphs additionally a node reachable from a non-trivial SCC but outside it); distinct = distinct serialised case.".into()
+        "graphs of all 8 kinds, n in 0..=12 (some 13..=30, and one case in 450 at a size around a power of two up to 255), sparse random edges plus shapes stressed towards many small components, long cycles, nested strongly connected components (cycle of cycles), DAGs, isolated nodes, self-loops and parallel edges; shuffled names. Oracle: boolean transitive closure of the edge list (Floyd-Warshall); connected/weak components = classes of mutual reachability ignoring direction, strong = mutual reachability; results compared as sets of sets (disjoint, non-empty, covering). node_connected_component and breadth_first_search from every node, bfs_equal_size_partitions for k = 1 + k%(n+2), WrongMethod on the other kind. Every call is repeated 3 times in-process (hash iteration order differs per call). Exhaustive block: all directed graphs on <= 3 nodes and undirected on <= 4. Non-trivial = >= 2 components with one of size >= 3 (for directed graphs additionally a node reachable from a non-trivial SCC but outside it); distinct = distinct serialised case.".into()
     }
     fn assumptions(&self) -> Vec<String> {
         vec!["'bounded size' for bfs_equal_size_partitions is read as floor(n/k)+1 per part, the bound documented by the function".into()]
@@ -74,7 +74,10 @@ impl Prop for C10 {
         let a = graph_strategy(&ALL_KINDS, 0, 12, sparse, &[0], 5);
         let b = graph_strategy(&ALL_KINDS, 0, 12, dense, &[0, 1], 2);
         let c = graph_strategy(&ALL_KINDS, 13, 30, sparse, &[0], 5);
-        (prop_oneof![6 => a, 2 => b, 1 => c], any::<u8>()).prop_map(|(g, k)| CompCase { g, k }).boxed()
+        // sizes around powers of two and up to the largest representable one (bit sets, chunked
+        // queues and similar size-dependent code would switch behaviour there)
+        let boundary = proptest::sample::select(vec![31u8, 32, 33, 47, 63, 64, 65, 96, 127, 128, 129, 191, 192, 193, 254, 255]).prop_flat_map(|n| graph_strategy(&ALL_KINDS, n, n, sparse, &[0], 5));
+        (prop_oneof![300 => a, 100 => b, 50 => c, 1 => boundary], any::<u8>()).prop_map(|(g, k)| CompCase { g, k }).boxed()
     }
     fn random_cases(&self, tier: Tier) -> u32 {
         tier.pick(300_000, 3_000_000)
@@ -108,7 +111,8 @@ impl Prop for C10 {
         let to_set = |cls: Vec<Vec<usize>>| -> BTreeSet<BTreeSet<usize>> { cls.into_iter().map(|c| c.into_iter().collect()).collect() };
         let weak_classes = to_set(classes(n, weak));
         let strong_classes = to_set(classes(n, |a, b| r[a][b] && r[b][a]));
-        for rep in 0..3 {
+        let reps = if n > 40 { 1 } else { 3 };
+        for rep in 0..reps {
             let _ = rep;
             out.api_calls += 4;
             let cc = guard(|| components::connected_components(&graph));
@@ -154,7 +158,8 @@ impl Prop for C10 {
                     out.check(!ng.directed && c == weak_classes.len(), "number_of_connected_components/eq_oracle/count", || format!("{} vs {}", c, weak_classes.len()));
                 }
             }
-            for x in 0..n {
+            let starts: Vec<usize> = if n > 40 { vec![0, n / 3, n / 2, n - 1, case.k as usize % n] } else { (0..n).collect() };
+            for x in starts {
                 out.api_calls += 2;
                 match guard(|| components::node_connected_component(&graph, &ng.names[x])) {
                     Err(p) => out.fail(format!("node_connected_component/panic/{}", panic_class(&p)), p),
@@ -226,6 +231,9 @@ impl Prop for C10 {
         }
         out.class(format!("kind_{}", ng.spec().label()));
         out.class(format!("components_{}", weak_classes.len().min(5)));
+        if n > 30 {
+            out.class(format!("boundary_size_{}", n));
+        }
         if ng.directed && strong_classes.iter().filter(|c| c.len() >= 2).count() >= 2 {
             out.class("two_nontrivial_sccs");
         }
